@@ -195,7 +195,8 @@ class Model(object):
         self.fval_v[k, :] = rvec.copy()
         self.objval[k] = sumsq(rvec)
         if self.h is not None:
-            self.objval[k] += self.h(remove_scaling(self.xbase + x, self.scaling_changes), *self.argsh)
+            # (h at the point that was evaluated: x clipped to the bounds / projected, as objfun saw it)
+            self.objval[k] += self.h(remove_scaling(self.as_absolute_coordinates(x), self.scaling_changes), *self.argsh)
         self.nsamples[k] = 1
         self.eval_num[k] = eval_num
         self.factorisation_current = False
@@ -225,7 +226,7 @@ class Model(object):
         # NOTE: how to sample when we have h? still at xpt(k), then add h(xpt(k)). Modify test if incorrect!
         self.objval[k] = sumsq(self.fval_v[k, :])
         if self.h is not None:
-            self.objval[k] += self.h(remove_scaling(self.xbase + self.points[k, :], self.scaling_changes), *self.argsh)
+            self.objval[k] += self.h(remove_scaling(self.as_absolute_coordinates(self.points[k, :]), self.scaling_changes), *self.argsh)
         self.nsamples[k] += 1
 
         objvals = self.objval[:self.npt()]
@@ -239,7 +240,7 @@ class Model(object):
         self.fval_v = np.append(self.fval_v, rvec.reshape((1, self.m())), axis=0)  # append row to fval_v
         obj = sumsq(rvec)
         if self.h is not None:
-            obj += self.h(remove_scaling(self.xbase + x, self.scaling_changes), *self.argsh)
+            obj += self.h(remove_scaling(self.as_absolute_coordinates(x), self.scaling_changes), *self.argsh)
         self.objval = np.append(self.objval, obj)  # append entry to fval
         self.nsamples = np.append(self.nsamples, 1)  # add new sample number
         self.eval_num = np.append(self.eval_num, eval_num)  # add new evaluation number
